@@ -156,6 +156,13 @@ def extract():
                                                        "self._facade = None",
                                                        "self._spa_descriptors = None",
                                                        "self._spa_state = GeckoSpaState.IDLE"],
+        "facade_cleared_last_descriptors_twice_facade_again": ["self._spa_descriptors = None",
+                                                               "if self._facade is not None:\n    await self._facade.disconnect()",
+                                                               "if self._spa is not None:\n    await self._spa.disconnect()\n    self._spa = None",
+                                                               "if self._facade is not None:\n    await self._facade.disconnect()",
+                                                               "self._facade = None",
+                                                               "self._spa_descriptors = None",
+                                                               "self._spa_state = GeckoSpaState.IDLE"],
     }
     shape = [k for k, v in reset_shapes.items() if v == ar]
     if not shape:
@@ -241,6 +248,8 @@ def gen_lifecycle():
     t += "Definition reset_clears_facade_last : bool := %s.\n" % vf.cbool(reset_shape.startswith("facade_cleared_last"))
     t += "(* async_reset: true = self._spa_descriptors is cleared again when the reset finishes (after its last await) *)\n"
     t += "Definition reset_clears_descriptors_last : bool := %s.\n" % vf.cbool("descriptors_twice" in reset_shape)
+    t += "(* async_reset: true = a facade that exists when the spa has been disconnected is disconnected (again) before the reference is cleared *)\n"
+    t += "Definition reset_disconnects_facade_last : bool := %s.\n" % vf.cbool(reset_shape.endswith("_facade_again"))
     t += "(* async_reset: true = it disconnects spa objects until self._spa is None, and clears the reference only if it still is the object it disconnected *)\n"
     t += "Definition reset_loops_until_no_spa : bool := %s.\n" % vf.cbool(reset_shape.endswith("_loop"))
     t += "(* _sequence_pump: an exception of a locate / connect attempt is caught, logged and followed by async_reset (else it ends the task) *)\n"
